@@ -170,7 +170,11 @@ static void drv_splice(drv_t *d, int slot)
 static void drv_policy(drv_t *d)
 {
     mx_ep *e = &d->e;
-    if (!d->sentApp && matrixSslHandshakeIsComplete(e->ssl) && !e->dead) {
+    /* The endpoint that receives spliced HelloRequest / ClientHello records answers each with an alert of the library's own.  Its application is
+       a responder: it writes once the peer's data has been delivered (an event with a position in the input stream) - were it to write on
+       learning of the completion, the order of its records and those alerts would hinge on which call reports the completion (see below). */
+    int responder = (d->s->aug == AUG_HREQ && d->role == MX_CLIENT) || (d->s->aug == AUG_RENEG && d->role == MX_SERVER);
+    if (!d->sentApp && matrixSslHandshakeIsComplete(e->ssl) && !e->dead && (!responder || d->t->gotlen >= d->expectPeerApp)) {
         d->sentApp = 1; d->hs_end = d->t->outlen + e->ssl->outlen; ev(d->t, "COMPLETE");
         for (int i = 0; i < 3; i++) { static unsigned char p[16400]; int l = app_len(d->s, d->role, i); drv_splice(d, i); mx_payload(p, l, 0x0c18, d->role, i); int rc = mx_send(e, p, l); if (rc <= 0) ev(d->t, "ENCFAIL%d", rc); }
         drv_splice(d, 3);
@@ -197,6 +201,30 @@ static void drv_drain(drv_t *d)
         drv_policy(d);
     }
 }
+/* as mx_process_rc, with one event per alert handed to the application (several may arrive in one receive call) */
+static int drv_process_rc(drv_t *d, int rc, unsigned char *pt, uint32 ptl)
+{
+    mx_ep *e = &d->e;
+    for (int guard = 0; guard < 100000; guard++) {
+        e->lastrc = rc;
+        if (rc == MATRIXSSL_APP_DATA || rc == MATRIXSSL_APP_DATA_COMPRESSED) {
+            e->nApp++; e->appBytes += ptl; on_app(e, pt, ptl);
+            mx_actor = e->id; e->calls++; MX_ENTER(); rc = matrixSslProcessedData(e->ssl, &pt, &ptl); MX_LEAVE();
+            continue;
+        }
+        if (rc == MATRIXSSL_RECEIVED_ALERT) {
+            e->nAlertIn++; if (ptl >= 2) { e->alertLevel = pt[0]; e->alertDesc = pt[1]; ev(d->t, "ALERTIN%d.%d", pt[0], pt[1]); } else ev(d->t, "ALERTIN-len%u", ptl);
+            mx_actor = e->id; e->calls++; MX_ENTER(); rc = matrixSslProcessedData(e->ssl, &pt, &ptl); MX_LEAVE();
+            continue;
+        }
+        if (rc == MATRIXSSL_HANDSHAKE_COMPLETE) e->hsDone = 1;
+        if (rc == MATRIXSSL_REQUEST_CLOSE) e->closeReq = 1;
+        if (rc < 0) e->dead = 1;
+        return rc;
+    }
+    vf_violation("harness:process-loop", "", "ProcessedData loop did not terminate");
+    return -1;
+}
 static void drv_feed(drv_t *d, const unsigned char *b, int n, int coalesce)
 {
     mx_ep *e = &d->e; trace_t *t = d->t; int off = 0;
@@ -208,11 +236,9 @@ static void drv_feed(drv_t *d, const unsigned char *b, int n, int coalesce)
         if (cap <= 0) { ev(t, "RBUFERR%d", cap); e->dead = 1; break; }
         int m = cap < n - off ? cap : n - off;
         memcpy(rb, b + off, m); off += m; t->fed += m;
-        int alerts = e->nAlertIn;
         MX_ENTER(); int rc = matrixSslReceivedData(e->ssl, m, &pt, &ptl); MX_LEAVE();
         if (vf_verbose > 1) fprintf(stderr, "  [%s] fed %d -> rc %d (total fed %d)\n", e->name, m, rc, t->fed);
-        { int hd = e->hsDone; e->hsDone = 0; rc = mx_process_rc(e, rc, pt, ptl); if (e->hsDone) { t->hsc_recv++; t->told = 1; } e->hsDone |= hd; }
-        if (e->nAlertIn > alerts) ev(t, "ALERTIN%d.%d", e->alertLevel, e->alertDesc);
+        { int hd = e->hsDone; e->hsDone = 0; rc = drv_process_rc(d, rc, pt, ptl); if (e->hsDone) { t->hsc_recv++; t->told = 1; } e->hsDone |= hd; }
         if (rc < 0) ev(t, "RECVERR%d", rc);
         if (rc == MATRIXSSL_REQUEST_CLOSE) ev(t, "RECV-REQCLOSE");
         drv_policy(d);
@@ -358,8 +384,10 @@ static void alone_run(void *a_)
     int pos = 0, ri = 0;
     for (int guard = 0; guard < 2000000; guard++) {
         drv_drain(&D);
-        /* idle point: everything sent, waiting for input.  A completed handshake must have been made known by now */
-        if (matrixSslHandshakeIsComplete(D.e.ssl) && !t->told && !D.e.dead) t->untold_at_quiescence = 1;
+        /* idle point: everything sent, nothing buffered, waiting for input.  A completed handshake must have been made known by now.  (While the
+           start of a further record is buffered the library answers REQUEST_RECV and reports the completion with the call that completes that
+           record - APP_DATA, or SentData after the response to it: deferred, not lost.) */
+        if (matrixSslHandshakeIsComplete(D.e.ssl) && !t->told && !D.e.dead && D.e.ssl->inlen == 0) t->untold_at_quiescence = 1;
         if (pos >= inlen || D.e.dead || (D.e.ssl->flags & SSL_FLAGS_ERROR)) break;
         int lim = pos; while (lim < inlen && need[lim] <= t->outlen) lim++;
         if (lim == pos) { t->stuck = 1; break; }    /* the endpoint has emitted less than in the recording: next bytes may not be delivered yet */
@@ -406,7 +434,7 @@ static void report(const scn_t *s, const alone_arg *a, const char *what, const c
     char key[240], msg[800]; va_list ap; va_start(ap, fmt); vsnprintf(msg, sizeof msg, fmt, ap); va_end(ap);
     if (aug_class(s)) snprintf(key, sizeof key, "c18:%s:%s:%s:%s:%s", what, mx_vername[s->ver], a->role ? "server" : "client", aug_class(s), chunk_class(a));
     else snprintf(key, sizeof key, "c18:%s:%s:%s:%s", what, mx_vername[s->ver], a->role ? "server" : "client", chunk_class(a));
-    vf_violation(key, desc, "%s | scenario=%s", msg, s->name);
+    vf_violation(key, desc, "%s | scenario=%s role=%s", msg, s->name, a->role ? "server" : "client");
 }
 static void evstr(const trace_t *t, char *o, size_t cap) { size_t n = 0; o[0] = 0; for (int i = 0; i < t->nev && n + 26 < cap; i++) n += snprintf(o + n, cap - n, "%s%s", i ? "," : "", t->ev[i]); }
 static void dump_stream(int d)
